@@ -5,6 +5,7 @@ import (
 	"flag"
 	"fmt"
 	"os"
+	"os/exec"
 	"path/filepath"
 	"sort"
 	"strconv"
@@ -28,7 +29,23 @@ func main() {
 	overlay := fs.String("overlay", "", "JSON file mapping absolute paths to replacement files")
 	verbose := fs.Bool("v", false, "verbose")
 	noEvidence := fs.Bool("no-evidence", false, "do not write evidence/replay files")
-	fs.Parse(os.Args[2:])
+	// flags may come after the positional arguments (check C10 -tier thorough): move them to the front
+	var flagArgs, posArgs []string
+	rest := os.Args[2:]
+	for i := 0; i < len(rest); i++ {
+		a := rest[i]
+		if strings.HasPrefix(a, "-") && a != "-" {
+			flagArgs = append(flagArgs, a)
+			name := strings.TrimLeft(a, "-")
+			if !strings.Contains(name, "=") && name != "v" && name != "no-evidence" && i+1 < len(rest) {
+				i++
+				flagArgs = append(flagArgs, rest[i])
+			}
+			continue
+		}
+		posArgs = append(posArgs, a)
+	}
+	fs.Parse(append(flagArgs, posArgs...))
 	timeout := 10000
 	if *tier == "thorough" {
 		timeout = 60000
@@ -547,6 +564,20 @@ func (e *Engine) CheckProperty(prop, tier, verifDir string, verbose, writeEviden
 			lines = append(lines, "UNDECIDED property="+prop+" no obligations generated (vacuous check)")
 		}
 	}
+	// thorough tier: the check must also be able to FAIL. Every stored seeded change for this property
+	// (/verif/seeded/*/patch.diff: a change that breaks the property while compiling and passing the test suite) is
+	// applied to a scratch copy of the files it touches and handed to the same check through a packages overlay
+	// (/repo itself is not modified); each must be reported as a violation. A canary that is not detected is a defect
+	// of the check (exit 2), never a violation of the property.
+	var canaries []map[string]any
+	if tier == "thorough" && exit == 0 && writeEvidence {
+		cs, missed := runCanaries(prop, verifDir, e.RepoDir)
+		canaries = cs
+		for _, m := range missed {
+			lines = append(lines, "UNDECIDED property="+prop+" selftest: seeded change "+m+" is not detected by this check")
+			exit = 2
+		}
+	}
 	wall := time.Since(t0).Seconds()
 	if writeEvidence {
 		var tb []string
@@ -573,6 +604,9 @@ func (e *Engine) CheckProperty(prop, tier, verifDir string, verbose, writeEviden
 			},
 			"assumptions": assumptionsFor(prop),
 			"wall_s":      wall, "violations": len(viols),
+		}
+		if canaries != nil {
+			ev["coverage"].(map[string]any)["canaries"] = canaries
 		}
 		os.MkdirAll(filepath.Join(verifDir, "evidence"), 0o755)
 		b, _ := json.MarshalIndent(ev, "", " ")
@@ -700,4 +734,84 @@ func (e *Engine) WriteBaseline(verifDir string) int {
 		return 1
 	}
 	return 0
+}
+
+// runCanaries applies each seeded change stored for prop to scratch copies of the files it touches and runs the quick
+// check of prop on the result through an overlay. Returns one record per canary and the names of those not detected.
+func runCanaries(prop, verifDir, repoDir string) ([]map[string]any, []string) {
+	var out []map[string]any
+	var missed []string
+	dirs, _ := filepath.Glob(filepath.Join(verifDir, "seeded", "*"))
+	sort.Strings(dirs)
+	self, _ := os.Executable()
+	for _, d := range dirs {
+		data, err := os.ReadFile(filepath.Join(d, "meta.json"))
+		if err != nil {
+			continue
+		}
+		var meta struct {
+			Property string `json:"property"`
+		}
+		json.Unmarshal(data, &meta)
+		if meta.Property != prop {
+			continue
+		}
+		name := filepath.Base(d)
+		patch, err := os.ReadFile(filepath.Join(d, "patch.diff"))
+		if err != nil {
+			continue
+		}
+		tmp, err := os.MkdirTemp("", "turnvc-canary-")
+		if err != nil {
+			continue
+		}
+		rec := map[string]any{"seeded_change": name}
+		func() {
+			defer os.RemoveAll(tmp)
+			ov := map[string]string{}
+			for _, l := range strings.Split(string(patch), "\n") {
+				if strings.HasPrefix(l, "+++ b/") {
+					rel := strings.TrimSpace(strings.TrimPrefix(l, "+++ b/"))
+					src, err := os.ReadFile(filepath.Join(repoDir, rel))
+					if err != nil {
+						continue
+					}
+					os.MkdirAll(filepath.Dir(filepath.Join(tmp, rel)), 0o755)
+					os.WriteFile(filepath.Join(tmp, rel), src, 0o644)
+					ov[filepath.Join(repoDir, rel)] = filepath.Join(tmp, rel)
+				}
+			}
+			ap := exec.Command("git", "apply", filepath.Join(d, "patch.diff"))
+			ap.Dir = tmp
+			if o, err := ap.CombinedOutput(); err != nil {
+				rec["status"] = "patch does not apply to the current tree (skipped): " + firstLines(string(o), 2)
+				return
+			}
+			ovb, _ := json.Marshal(ov)
+			ovf := filepath.Join(tmp, "overlay.json")
+			os.WriteFile(ovf, ovb, 0o644)
+			t1 := time.Now()
+			c := exec.Command(self, "check", prop, "-tier", "quick", "-no-evidence", "-overlay", ovf, "-verif", verifDir)
+			o, _ := c.CombinedOutput()
+			rec["wall_s"] = time.Since(t1).Seconds()
+			detected := false
+			for _, l := range strings.Split(string(o), "\n") {
+				if strings.HasPrefix(l, "VIOLATION property="+prop) {
+					detected = true
+				}
+				if strings.HasPrefix(l, "  failed obligation:") && rec["obligation"] == nil {
+					rec["obligation"] = strings.TrimSpace(strings.TrimPrefix(l, "  failed obligation:"))
+				}
+			}
+			rec["detected"] = detected
+			if !detected {
+				rec["status"] = "NOT DETECTED: " + firstLines(string(o), 3)
+				missed = append(missed, name)
+			} else {
+				rec["status"] = "detected"
+			}
+		}()
+		out = append(out, rec)
+	}
+	return out, missed
 }
